@@ -66,12 +66,12 @@ class DispatchTemplatePattern(RewritePattern):
                     strict=True,
                 ):
                     if template_el_type != kernel_el.type:
-                        # no match, continue
-                        continue
-
-                # kernel supported & operand types matched successfully
-                matched_accelerator = accelerator
-                break
+                        # no match, try the next supported kernel
+                        break
+                else:
+                    # kernel supported & operand types matched successfully
+                    matched_accelerator = accelerator
+                    break
 
         if not matched_accelerator:
             return
